@@ -58,12 +58,6 @@ func (e *Engine) VerifyFunction(fn *ssa.Function, con *Contract, prof *Profile) 
 	if fn.Blocks == nil {
 		c.fail("function %s has no body", funcKey(fn))
 	}
-	c.execFunction(fr, st, "true")
-	res0 := fn.Signature.Results()
-	var resNames []string
-	for i := 0; i < res0.Len(); i++ {
-		resNames = append(resNames, res0.At(i).Name())
-	}
 	// modifies (evaluated in the pre-state)
 	whole := map[string]bool{}
 	byRegion := map[string][]string{}
@@ -76,6 +70,14 @@ func (e *Engine) VerifyFunction(fn *ssa.Function, con *Contract, prof *Profile) 
 				byRegion[l.Region] = append(byRegion[l.Region], l.Ref)
 			}
 		}
+	}
+	fr.modWhole, fr.modRefs = whole, byRegion
+	fr.modKnown = !con.ModAll && !prof.DefaultHavoc
+	c.execFunction(fr, st, "true")
+	res0 := fn.Signature.Results()
+	var resNames []string
+	for i := 0; i < res0.Len(); i++ {
+		resNames = append(resNames, res0.At(i).Name())
 	}
 	if len(fr.retGuards) == 0 {
 		o := c.oblige("cover", "cover#returns", "true", "false", "some return reachable")
